@@ -31,8 +31,14 @@ Conform(e) ==
   \A i \in 1..Len(e.paths) :
     LET q == e.paths[i] IN
     q.planned /\ q.kind = "transfer" =>
-      /\ (q.crash = "new") = (Has(e.calls, "Rename", i) \/ q.old = "new")
-      /\ q.staging = (Has(e.calls, "CreateTmp", i) /\ ~Has(e.calls, "Rename", i))
+      IF e.jobs = 1
+      THEN /\ (q.crash = "new") = (Has(e.calls, "Rename", i) \/ q.old = "new")
+           /\ q.staging = (Has(e.calls, "CreateTmp", i) /\ ~Has(e.calls, "Rename", i))
+      \* several transfers in flight: the process is killed before the k-th call of ONE thread; another thread may have
+      \* completed a call whose log line (written after the call returns) never made it - one call per thread at most
+      ELSE /\ Has(e.calls, "Rename", i) => q.crash = "new"
+           /\ q.crash = "new" => (Has(e.calls, "Rename", i) \/ q.old = "new" \/ Has(e.calls, "CreateTmp", i))
+           /\ (Has(e.calls, "CreateTmp", i) /\ ~Has(e.calls, "Rename", i) /\ q.crash # "new") => q.staging
 
 Init == l = 1 /\ bad = {} /\ nonconf = {}
 Next == /\ l <= Len(Recs)
